@@ -390,6 +390,10 @@ def metamorphic(case, out, rng):
     fails = []
     if "exc" in out or out["val"] == "nonfinite":
         return fails
+    if case.get("alias"):  # the variants change ref / hyp separately: two tensor objects from here on
+        case = {k: v for k, v in case.items() if k != "alias"}
+    if "expand" in (case.get("layout") or ()):  # ... and the stride-0 reference becomes an ordinary tensor
+        case = dict(case, layout=[l if l != "expand" else "contig" for l in case["layout"]])
     N, R, H = _dims(case)
     # (1) a pair's result does not depend on the other pairs
     if N > 1:
